@@ -130,11 +130,11 @@ where
     }
     let got = it.nth(1).map(&proj);
     ensure!(got.as_ref() == expected.get(j + 1), sig("nth-after-next"), "{what}: after {j} next() calls nth(1) = {got:?}, want {:?}", expected.get(j + 1));
-    // adaptors built on nth / advance
+    // adaptors built on nth / advance (bounded: an adaptor that never ends is a wrong answer, not a hang of the check)
     let k = (salt as usize >> 16) % (n + 2);
-    let got: Vec<T> = mk().skip(k).map(&proj).collect();
+    let got: Vec<T> = mk().skip(k).take(n + 2).map(&proj).collect();
     ensure!(got.as_slice() == expected.get(k.min(n)..).unwrap_or(&[]), sig("skip"), "{what}: skip({k}) yields {} items, want {}", got.len(), n - k.min(n));
-    let got: Vec<T> = mk().step_by(2).map(&proj).collect();
+    let got: Vec<T> = mk().step_by(2).take(n + 2).map(&proj).collect();
     let want: Vec<&T> = expected.iter().step_by(2).collect();
     ensure!(got.iter().collect::<Vec<_>>() == want, sig("step_by"), "{what}: step_by(2) yields {got:?}, want {want:?}");
     // past the end it stays at the end
